@@ -152,8 +152,29 @@ fn make_case(ctx: &mut Ctx) -> Option<(Rc<Vec<u8>>, Vec<Query>, String)> {
     // base history, then every query repeated (so that each is re-asked after any fault position)
     let n = 1 + ctx.rng.usize_below(5);
     let base: Vec<Query> = (0..n).map(|_| pool[ctx.rng.usize_below(pool.len())].clone()).collect();
-    let mut hist = base.clone();
-    hist.extend(base);
+    // three shapes: (a) base then the whole base again; (b) every query issued twice in a row (a caller retrying at
+    // once); (c) the sections in file order, each twice (adjacent ranges read back to back)
+    let mut hist: Vec<Query>;
+    match ctx.rng.below(3) {
+        0 => {
+            hist = base.clone();
+            hist.extend(base);
+        }
+        1 => {
+            hist = base.iter().flat_map(|q| [q.clone(), q.clone()]).collect();
+            hist.extend(base);
+        }
+        _ => {
+            let mut secs: Vec<(u64, usize)> = (1..r.shnum()).filter_map(|i| r.shdr(i).map(|s| (s.get("sh_offset"), i))).collect();
+            secs.sort();
+            let start = ctx.rng.usize_below(secs.len().max(1));
+            hist = secs.iter().skip(start).take(2 + n).flat_map(|(_, i)| [Query::SectionData(*i), Query::SectionData(*i)]).collect();
+            if hist.is_empty() {
+                hist = base.clone();
+            }
+            hist.extend(base);
+        }
+    }
     let what = format!("generated {} ({} bytes), history {:?}", enc.name(), b.bytes.len(), hist.iter().take(5).collect::<Vec<_>>());
     Some((Rc::new(b.bytes), hist, what))
 }
